@@ -96,11 +96,12 @@ class Stats:
         k = r.get("key")
         if k is not None:
             self.keys.add(khash(k))
-            if want_samples and len(self.nt_samples) < 3:
+            # samples are taken at spread-out positions (a generator's first cases are its minimal ones)
+            if want_samples and len(self.nt_samples) < 3 and self.evaluations % 53 == 7:
                 self.nt_samples.append(case)
         for c in r.get("cls", ()):
             self.classes[c] += 1
-        if want_samples and len(self.samples) < 2:
+        if want_samples and len(self.samples) < 2 and (self.evaluations == 1 or self.evaluations % 101 == 50):
             self.samples.append(case)
 
     def merge(self, o):
